@@ -32,6 +32,45 @@ P = {
         "workbooks exercised are the repository fixtures plus generated files.",
    technique="Coq proof (state-machine induction; map over Range) + metamorphic correspondence through the public API",
    design_ref="5/C07"),
+ "C10": dict(claimed=True,
+   text="Coq theorems over NumFmt.v: the format-string scanner agrees with the number-format grammar for every well-formed AST outside "
+        "the known classes (C10_scanner_agrees_with_grammar, induction over tokens with the neutral-at-boundaries invariant; "
+        "C10_first_section_only), both built-in tables agree with each other and with the ECMA-376 list for all 65536 codes "
+        "(finite sweep lifted by forallb_forall, bound in the statement), and date_iff_style for the xlsx/xls/xlsb style plumbing. "
+        "Six known classes carry refutation lemmas with witnesses. Tie: hooks on the scanner and tables (all strings up to length 5 "
+        "over the significant alphabet, grammar derivations, all codes) and generated xlsx/xls/xlsb files through the public API.",
+   note=TB + " RK bit decoding, text->f64 parsing and atoi on the s attribute are computed by the driver, not modelled.",
+   technique="Coq proof (token-list induction with scanner-state invariant; finite table sweep) + extracted-model correspondence",
+   design_ref="5/C10"),
+ "C11": dict(claimed=True,
+   text="Coq theorems over Serial.v/Civil.v/F64.v (Flocq binary64): civil_bijection on all of Z, every whole serial 0..=2958465 in both "
+        "date systems maps to the right midnight (proved semantically, product exact for |d| <= 104249991), as_date/as_time are the "
+        "components of as_datetime, duration = serial x 24h, millisecond rounding bound, monotone outside the known class, None beyond "
+        "the calendar, and no Panic for ALL 64-bit patterns. Known classes F16 ([60,61) non-monotone), F34/F35 (serde helpers). "
+        "Tie: public ExcelDateTime/DataType API on bit patterns vs the extracted Flocq model.",
+   note=TB + " Axioms (via Flocq, named by Print Assumptions): ClassicalDedekindReals.sig_not_dec, sig_forall_dec, "
+        "FunctionalExtensionality.functional_extensionality_dep, Classical_Prop.classic. chrono 0.4.45's arithmetic is modelled from its source; ISO-string cells are outside the model.",
+   technique="Coq proof with Flocq binary64 (exactness of the day product, calendar bijection by era decomposition) + extracted-model correspondence",
+   design_ref="5/C11"),
+ "C12": dict(claimed=True,
+   text="Coq theorem C12_sst_any_split: for every string table and every legal layout (CONTINUE cuts between strings, inside character "
+        "data with a fresh compression flag, inside rgRun/ExtRst; any per-segment 8/16-bit packing) outside the known class, "
+        "parse_sst (sst_encode strs lay) = the stored texts — unbounded induction over strings and segments; plus string_read_exact, "
+        "later_strings_unaffected, layout_irrelevant, labelsst_resolves, record_iter_collects, sheet names / LABEL / STRING, fuel "
+        "totality. Known class CutInsidePair (F24) with refutation lemma and exactness of the class. Tie: hooks parse_sst/records/"
+        "parse_string on extracted encodings, malformed fragments (panic prediction), generated .xls files through Xls::new.",
+   note=TB + " Code pages other than 1200 and BIFF2-5 string branches are not modelled.",
+   technique="Coq proof (induction over strings/segments with a reader-position invariant) + extracted-model correspondence",
+   design_ref="5/C12"),
+ "C15": dict(claimed=True,
+   text="Coq theorems over SharedFmla.v: C15_translate_correct (for every well-formed token list in range and outside the known classes "
+        "replace_cell_names (render ts) off = render (map (translate off) ts); scanner-splitting lemma + induction over tokens), "
+        "the vertical-group variant, C15_inert_text, C15_group_covers_range (offset-map construction and lookup, total and exact), "
+        "offset-map characterisation. Eight known classes (F22-*) with vm_compute refutation lemmas. Tie: hook replace_cell_names and "
+        "A1 helpers, generated xlsx sheets with shared groups through worksheet_formula.",
+   note=TB + " The XML layer (attribute parsing, several <f> per cell) is exercised end to end but not modelled.",
+   technique="Coq proof (scanner invariant at token boundaries; induction over token lists and group cells) + extracted-model correspondence",
+   design_ref="5/C15"),
 }
 REASON_TODO = "not claimed yet: model and theorems for this property are still being built (see DESIGN.md section 9)"
 
@@ -78,6 +117,6 @@ def main():
         json.dump(m, f, indent=1)
         f.write("\n")
 
-HOOK_COMMITS = ["6e4993e"]
+HOOK_COMMITS = ["6e4993e", "bb5031b"]
 if __name__ == "__main__":
     main()
